@@ -522,6 +522,39 @@ def member(ctx, R, py, modules):
 
 
 NOCOPY_CALLS = ("asarray", "asanyarray", "ascontiguousarray", "asfarray", "frombuffer", "atleast_1d", "memoryview")
+NORMALISERS = ("lower", "upper", "casefold", "title", "capitalize", "swapcase", "strip", "lstrip", "rstrip", "replace")
+
+
+def exact_labels(ctx, R, py, modules):
+    """LABEL -- a label names one object: where an argument is compared with the `.label` of species / reactions (or with the
+    environment names) the comparison is on the text as given.  Folding case or trimming either side ("atp " finds "ATP")
+    makes two different labels of one network answer to the same name, and the accessor returns the data of whichever comes
+    first."""
+    from . import pysym
+    n = 0
+    for mn in modules:
+        m = py.mods.get(mn)
+        ctx.need(m is not None, R, "module %s not found" % mn)
+        for f in m.funcs.values():
+            for c in ast.walk(f):
+                if not (isinstance(c, ast.Compare) and len(c.ops) == 1 and isinstance(c.ops[0], (ast.Eq, ast.NotEq, ast.In, ast.NotIn))):
+                    continue
+                sides = [c.left, c.comparators[0]]
+                txt = [pyfe.src(x) for x in sides]
+                if not any(t.endswith(".label") or ".label." in t or "environments" in t or "labels" in t for t in txt):
+                    continue
+                if any(isinstance(x, ast.Constant) for x in sides):
+                    continue                     # a fixed word ('default') is not a lookup
+                n += 1
+                full = [pysym.inline(x, f) for x in sides]
+                norm = [k.func.attr for x in full for k in ast.walk(x) if isinstance(k, ast.Call) and isinstance(k.func, ast.Attribute)
+                        and k.func.attr in NORMALISERS]
+                ctx.check(not norm, R, c, f._qual, pyfe.src(c)[:70], "labels compared as given",
+                          "the label is compared after `.%s()`: labels that differ only in case / blanks are one name for this "
+                          "lookup, and the first of them is returned for both" % (norm[0] if norm else ""), nontrivial=False)
+    return n
+
+
 NOCOPY_METHODS = ("ravel", "reshape", "view", "squeeze", "swapaxes", "transpose")
 COPY_CALLS = ("array", "copy", "deepcopy", "list", "tuple", "UnitArray", "UnitValue", "flatten", "tolist", "astype")
 
@@ -589,6 +622,7 @@ def run(ctx, pid, py, modules, truth_floor=1):
     copyout(ctx, pid + ".COPYOUT", py, modules)
     member(ctx, pid + ".MEMBER", py, modules)
     alias(ctx, pid + ".ALIAS", py, modules)
+    exact_labels(ctx, pid + ".LABEL", py, modules)
     unused(ctx, pid + ".PARAMS", py, modules, ctx.cx if pid in CX_PROPS else None)
     if pid in CX_PROPS or pid in ("C07", "C16"):
         from . import cxacc
